@@ -377,26 +377,26 @@ func c12Units(ctx *core.Ctx) []core.Unit {
 	}
 	for a := 0; a < len(short); a++ {
 		for b := a; b < len(short); b++ {
-			us = append(us, sched(fmt.Sprintf("short pair: %s || %s", ops[short[a]].name, ops[short[b]].name), []int{short[a], short[b]}, explore.Options{DataBudget: -1, MaxExecs: 400000, Deadline: schedDeadline(ctx)}, "dpor"))
+			us = append(us, sched(fmt.Sprintf("short pair: %s || %s", ops[short[a]].name, ops[short[b]].name), []int{short[a], short[b]}, explore.Options{DataBudget: -1, MaxExecs: 400000, Deadline: c12Deadline(ctx)}, "dpor"))
 		}
 	}
 	for _, tr := range [][3]int{{0, 1, 5}, {0, 0, 0}, {2, 3, 4}, {5, 5, 6}, {1, 4, 6}, {0, 3, 5}} {
-		us = append(us, sched(fmt.Sprintf("short triple: %s || %s || %s", ops[short[tr[0]]].name, ops[short[tr[1]]].name, ops[short[tr[2]]].name), []int{short[tr[0]], short[tr[1]], short[tr[2]]}, explore.Options{DataBudget: 2, MaxExecs: 400000, Deadline: schedDeadline(ctx)}, "dpor"))
+		us = append(us, sched(fmt.Sprintf("short triple: %s || %s || %s", ops[short[tr[0]]].name, ops[short[tr[1]]].name, ops[short[tr[2]]].name), []int{short[tr[0]], short[tr[1]], short[tr[2]]}, explore.Options{DataBudget: 2, MaxExecs: 400000, Deadline: c12Deadline(ctx)}, "dpor"))
 	}
 	for _, h := range heavy {
 		for _, s := range []int{short[0], short[5]} {
-			us = append(us, sched(fmt.Sprintf("heavy+short: %s || %s", ops[h].name, ops[s].name), []int{h, s}, explore.Options{DataBudget: 1, MaxExecs: 100000, Deadline: schedDeadline(ctx)}, "dpor"))
+			us = append(us, sched(fmt.Sprintf("heavy+short: %s || %s", ops[h].name, ops[s].name), []int{h, s}, explore.Options{DataBudget: 1, MaxExecs: 100000, Deadline: c12Deadline(ctx)}, "dpor"))
 		}
 	}
 	for _, hp := range [][2]int{{0, 1}, {1, 1}, {2, 2}, {3, 4}, {4, 4}, {0, 5}} {
-		us = append(us, sched(fmt.Sprintf("heavy pair: %s || %s", ops[heavy[hp[0]]].name, ops[heavy[hp[1]]].name), []int{heavy[hp[0]], heavy[hp[1]]}, explore.Options{DataBudget: 0, MaxExecs: 100000, Deadline: schedDeadline(ctx)}, "dpor"))
+		us = append(us, sched(fmt.Sprintf("heavy pair: %s || %s", ops[heavy[hp[0]]].name, ops[heavy[hp[1]]].name), []int{heavy[hp[0]], heavy[hp[1]]}, explore.Options{DataBudget: 0, MaxExecs: 100000, Deadline: c12Deadline(ctx)}, "dpor"))
 	}
 	// the many-openings prover under other worker counts (alone and next to a short call): no deadlock state
 	last := heavy[len(heavy)-1]
 	for _, cpu := range []int{3, 4, 16} {
 		schedCPU = cpu
-		us = append(us, sched(fmt.Sprintf("NumCPU=%d: %s", cpu, ops[last].name), []int{last}, explore.Options{DataBudget: 0, MaxExecs: 100000, Deadline: schedDeadline(ctx)}, "dpor"))
-		us = append(us, sched(fmt.Sprintf("NumCPU=%d: %s || %s", cpu, ops[last].name, ops[short[5]].name), []int{last, short[5]}, explore.Options{DataBudget: 0, MaxExecs: 100000, Deadline: schedDeadline(ctx)}, "dpor"))
+		us = append(us, sched(fmt.Sprintf("NumCPU=%d: %s", cpu, ops[last].name), []int{last}, explore.Options{DataBudget: 0, MaxExecs: 100000, Deadline: c12Deadline(ctx)}, "dpor"))
+		us = append(us, sched(fmt.Sprintf("NumCPU=%d: %s || %s", cpu, ops[last].name, ops[short[5]].name), []int{last, short[5]}, explore.Options{DataBudget: 0, MaxExecs: 100000, Deadline: c12Deadline(ctx)}, "dpor"))
 	}
 	schedCPU = 2
 	us = append(us, core.Unit{Name: "free-running pairs (default build)", Run: func(ctx *core.Ctx, r *core.Result) {
@@ -490,4 +490,13 @@ func clip3k(s string) string {
 		return s[:3000]
 	}
 	return s
+}
+
+// c12Deadline: per-scenario cap of C12's scheduled explorations (shorter than the general one in the quick
+// tier because C12 has the most scenarios).
+func c12Deadline(ctx *core.Ctx) time.Duration {
+	if ctx.Thorough() {
+		return 10 * time.Minute
+	}
+	return 12 * time.Second
 }
